@@ -130,13 +130,33 @@ def audit(prop_id):
 
 # ---------------------------------------------------------------- running the servers
 
-def _run_one(cmd, text):
-    p = subprocess.run(cmd, input=text, stdout=subprocess.PIPE, stderr=subprocess.PIPE, text=True)
-    return p.returncode, p.stdout, p.stderr
+SHARD_TIMEOUT = float(os.environ.get("VERIF_SHARD_TIMEOUT", "900"))
 
 
-def run_server(cmd, lines, shards=None):
-    """feed request lines to a server (round-robin over `shards` processes), return the answer lines in order."""
+def _run_one(cmd, text, timeout=None):
+    """run one server process on `text`; on timeout kill it and return what it had answered so far"""
+    os.makedirs(WORK, exist_ok=True)
+    fi = tempfile.NamedTemporaryFile("w", dir=WORK, suffix=".in", delete=False)
+    fi.write(text); fi.close()
+    fo = tempfile.NamedTemporaryFile("r", dir=WORK, suffix=".out", delete=False)
+    timed_out = False
+    with open(fi.name) as fin, open(fo.name, "w") as fout:
+        p = subprocess.Popen(cmd, stdin=fin, stdout=fout, stderr=subprocess.PIPE, text=True)
+        try:
+            _, se = p.communicate(timeout=timeout or SHARD_TIMEOUT)
+        except subprocess.TimeoutExpired:
+            p.kill()
+            _, se = p.communicate()
+            timed_out = True
+    so = open(fo.name).read()
+    os.unlink(fi.name); os.unlink(fo.name)
+    return (-9 if timed_out else p.returncode), so, se or ""
+
+
+def run_server(cmd, lines, shards=None, timeout=None):
+    """feed request lines to a server (round-robin over `shards` processes), return the answer lines in order.
+    A request the server never answered is reported as `timeout` (the first one of a killed process), `crash ...`
+    (the first one of a dead process) or `not-run` (those behind it)."""
     if not lines:
         return []
     n = len(lines)
@@ -145,15 +165,17 @@ def run_server(cmd, lines, shards=None):
     shards = max(1, min(shards, n))
     chunks = [lines[k::shards] for k in range(shards)]
     with ThreadPoolExecutor(max_workers=len(chunks)) as ex:
-        res = list(ex.map(lambda c: _run_one(cmd, "\n".join(c) + "\n"), chunks))
+        res = list(ex.map(lambda c: _run_one(cmd, "\n".join(c) + "\n", timeout), chunks))
     out = [None] * n
     for k, ((rc, so, se), c) in enumerate(zip(res, chunks)):
         ans = so.split("\n")
         if ans and ans[-1] == "":
             ans = ans[:-1]
-        if len(ans) != len(c):
-            # the server died (abort / alloc failure): mark what is missing as a crash
-            ans = ans[:len(c)] + ["crash rc=%s %s" % (rc, se.strip()[-120:])] * (len(c) - len(ans))
+        if len(ans) > len(c):
+            ans = ans[:len(c)]
+        if len(ans) < len(c):
+            first = "timeout" if rc == -9 else "crash rc=%s %s" % (rc, se.strip()[-120:])
+            ans = ans + [first] + ["not-run"] * (len(c) - len(ans) - 1)
         for j, a in enumerate(ans):
             out[k + j * shards] = a
     return out
@@ -175,6 +197,11 @@ def compare(lines, model, checked, release):
         if c == "@model":
             if m == "bad-request":
                 dis.append((i, "bad-request"))
+            continue
+        if c == "timeout" or r == "timeout":
+            dis.append((i, "impl-timeout"))
+            continue
+        if "not-run" in (m, c, r):
             continue
         if m == "@impl":
             if c == "bad-request":
